@@ -91,13 +91,14 @@ CHECKS = {
         technique="runtime monitoring: tagged datagrams logged at raw sockets vs transport events, offline history checker, EAGAIN injection, ASan/TSan"),
     "C07": dict(
         level="fault_enumeration",
-        text="A pruned 511-cell configuration matrix (verify on/off x trust anchor x server certificate x client certificate x protocol ceiling x peer kind x entry point "
-             "{Transport client/server, HttpClient, HttpServer} x target kind) is executed for real against an independent libssl / plaintext / garbage peer through a "
+        text="A pruned 601-cell configuration matrix (verify on/off x trust anchor x server certificate x client certificate x protocol ceiling x peer kind x entry point "
+             "{Transport client/server, HttpClient, HttpServer} x target kind x lifecycle (fresh, second life, retried start) x HttpClient request sequences (http-then-https and https-then-http on one host:port, setTlsConfig between requests)) is executed for real against an independent libssl / plaintext / garbage peer through a "
              "recording relay; the expected outcome of each cell (must-reject / must-accept / either) is computed from its coordinates alone; admission is decided by "
              "application data exchanged, the relay scans for clear-text tokens, the peer reports the negotiated version. Quick runs a seeded covering subset (every coordinate "
              "value, every reject class, the floor cells) on plain+asan; thorough runs the whole matrix on plain+asan+tsan (exhaustive over the matrix).",
         note="System OpenSSL 3.0.x; TLS 1.0/1.1 are only negotiable at security level 0, so low-ceiling cells run at @SECLEVEL=0 and reference libssl-vs-libssl cells must prove "
-             "negotiability for the floor cells to count. Revocation, name constraints, cipher strength are out of scope.",
+             "negotiability for the floor cells to count. Revocation, name constraints, cipher strength are out of scope. "
+             "One open known finding (HttpClient::setTlsConfig() after the first request is ignored; seq-settls-* cells only).",
         technique="runtime monitoring over an enumerated configuration matrix: differential oracle from cell coordinates, independent libssl peer, wire-capturing relay"),
     "C08": dict(
         level="exploration",
@@ -106,7 +107,9 @@ CHECKS = {
              "firing; handlers are quick, slow (making the tick thread lag), throwing, scheduling and cancelling; stop()/drain() at quiescence or racing the schedulers with a delay "
              "injected after the scheduler's clock read. Every call/return and the first/last statement of every handler is stamped on the un-shimmed monotonic clock; an offline "
              "checker applies: never early (minus one tick for the wheel), one-shot at most once, k-th periodic firing not before k intervals, no start after a successful cancel/"
-             "reschedule returned, cancel false => ran exactly once, never dropped, nothing after stop/drain returned, refused after stop, no API call stuck.",
+             "reschedule returned, cancel false => ran exactly once, never dropped, nothing after stop/drain returned, refused after stop, no API call stuck. "
+             "A long-handler family (handler outliving TimerService::stop()'s internal 5 s drain or a drain(300), schedulers running across the teardown; stop / timed-out drain then stop / "
+             "pool stop / destructor / wheel stop / wheel drain) checks the same shutdown rules where a fixed internal wait expires.",
         note="A timer's deadline is bounded below by (schedule call time + delay), so earliness is judged conservatively; timers handed to a user dispatcher are out of scope. "
              "One open known finding (periodic cancel vs already-collected firings).",
         technique="runtime monitoring: client-boundary timer history + offline checker, clock-read and condvar delay injection, TSan"),
@@ -116,7 +119,9 @@ CHECKS = {
              "submissions around the idle-exit instant) against pools (min,max) in {(0,1),(1,2),(2,8),(4,4),(1,1),(0,4),(1,3)}, idle timeouts 1-500 ms, queue sizes 1-1024, task kinds "
              "quick/sleep/throw/nested-submit/latched, enqueue/tryEnqueue/enqueueWithResult, shutdown by destructor, stop(), drain()+stop(), stop() racing submitters. Each task "
              "counts its own executions and stamps entry/exit; the checker requires exactly-once for every accepted task, ready futures with the right value/exception, justified "
-             "refusals only, no task start/run after shutdown returned, and an exact concurrently-running-workers high-water mark <= max (plus sampled getTotalThreadCount()).",
+             "refusals only, no task start/run after shutdown returned, and an exact concurrently-running-workers high-water mark <= max (plus sampled getTotalThreadCount()). "
+             "A long-task family (every worker busy with a 5.35-7.6 s task, i.e. on either side of shutdown()'s 5 s + 1 s waits and the destructor's 5 s drain phase, quick tasks queued behind; "
+             "teardown by shutdown() / timed-out drain()+stop() / stop() / destructor) checks that the returning call left nothing running and nothing starts later.",
         note="Task bodies are bounded; DETACHED shutdown mode excluded (documented as leaking); the pool object is never destroyed while a submitter may still call into it.",
         technique="runtime monitoring: per-task counters + shutdown fence + thread high-water mark, spin-barrier bursts, condvar delay injection, TSan"),
     "C10": dict(
